@@ -13,7 +13,7 @@ Definition v2_clean (d : v2doc) : Prop :=
 
 Lemma decode_no_panic : forall g d, decode g d <> Panic.
 Proof.
-  intros g d. destruct d as [|n|d1|d2]; cbn [decode]; try discriminate.
+  intros g d. destruct d as [| |n|d1|d2]; cbn [decode]; try discriminate.
   - destruct (negb (d1_fields_ok d1)); [discriminate|]. destruct (d1_default d1); discriminate.
   - destruct (negb (d2_fields_ok d2)); [discriminate|].
     destruct (g && existsb snd (d2_relays d2)); [discriminate|].
@@ -43,7 +43,7 @@ Qed.
 
 Lemma decode_rejects_null : forall d, doc_has_null d = true -> decode true d = Err CEDecode.
 Proof.
-  intros d H. destruct d as [|n|d1|d2]; cbn in H; try discriminate.
+  intros d H. destruct d as [| |n|d1|d2]; cbn in H; try discriminate.
   cbn [decode andb]. destruct (negb (d2_fields_ok d2)); [reflexivity|].
   destruct (existsb snd (d2_relays d2)) eqn:E1; [reflexivity|]. cbn [orb] in H.
   destruct (existsb (fun p => match p with None => true | Some _ => false end) (d2_proposers d2)) eqn:E2; [reflexivity|].
@@ -122,7 +122,7 @@ Proof. intros a k. discriminate. Qed.
 
 Lemma decode_safe : forall d c, decode true d = Ok c -> safe (Some c).
 Proof.
-  intros d c H a k. destruct d as [|n|d1|d2]; try discriminate.
+  intros d c H a k. destruct d as [| |n|d1|d2]; try discriminate.
   - cbn [decode] in H. destruct (negb (d1_fields_ok d1)); [discriminate|]. destruct (d1_default d1); [|discriminate].
     injection H as <-. apply lookup1_guarded.
   - apply decode_v2_clean in H as [-> Hc]. cbn [lookup]. apply lookup2_clean. exact Hc.
